@@ -23,7 +23,8 @@ REQUIRED = ["angle-class.small-angle(|a|<=0.05)", "angle-class.general-angle", "
             "class.Scenario", "class.PlanningProblemSet", "class.PMState", "class.EnvironmentObstacle",
             "scenario-has-all-roles", "undo", "uncertain-state", "goal-state-without-position",
             "contract.translate_rotate.Scenario", "contract.translate_rotate.LaneletNetwork",
-            "contract.translate_rotate.GoalRegion"]
+            "contract.translate_rotate.GoalRegion", "part.Trajectory-in-DynamicObstacle",
+            "part.Trajectory-in-Scenario", "part.LaneletNetwork-in-Scenario", "part-with-derived-occupancies"]
 ASSUMPTIONS = ["tolerance 1e-9*(1+|p|+|t|) on points, 1e-8 on angles (mod 2pi)",
                "obstacle history lists and areas are not in the statement's list and are not compared"]
 SHARDS = {"quick": 4, "thorough": 16}
@@ -183,6 +184,81 @@ def run(ctx):
                         name, rigid.generalise(path), small), "%s: before %s after undo %s" % (path, e, g), wit)
             except Exception as e:  # noqa
                 ctx.violation("C05/%s.translate_rotate/undo-raises-%s" % (name, type(e).__name__), repr(e)[:300], wit)
+
+    # ------------------------------------------------------------------------------------------- parts of a whole
+    # "...or any part of them": moving a PART in place (after the whole was read once, so that every derived value the
+    # library keeps has been computed) moves exactly the components under that part, derived occupancies included.
+    def parts_of(whole, name):
+        from commonroad.prediction.prediction import TrajectoryPrediction
+        ps = []
+        if name == "TrajectoryPrediction":
+            ps.append((".trajectory", whole.trajectory))
+        elif name == "DynamicObstacle":
+            if whole.prediction is not None:
+                ps.append((".prediction", whole.prediction))
+            if isinstance(whole.prediction, TrajectoryPrediction):
+                ps.append((".prediction.trajectory", whole.prediction.trajectory))
+        elif name == "Scenario":
+            ps.append((".lanelet_network", whole.lanelet_network))
+            for ob in whole.obstacles:
+                pre = ".obstacle[%d]" % ob.obstacle_id
+                ps.append((pre, ob))
+                pr = getattr(ob, "prediction", None)
+                if pr is not None:
+                    ps.append((pre + ".prediction", pr))
+                    if isinstance(pr, TrajectoryPrediction):
+                        ps.append((pre + ".prediction.trajectory", pr.trajectory))
+        elif name == "LaneletNetwork":
+            for la in whole.lanelets[:3]:
+                ps.append((".lanelet[%d]" % la.lanelet_id, la))
+        elif name == "PlanningProblemSet":
+            for k, pp in whole.planning_problem_dict.items():
+                ps.append((".pp[%d]" % k, pp))
+                ps.append((".pp[%d].goal" % k, pp.goal))
+        elif name == "PlanningProblem":
+            ps.append((".goal", whole.goal))
+        return ps
+
+    WHOLES = ["DynamicObstacle", "Scenario", "TrajectoryPrediction", "DynamicObstacle", "LaneletNetwork",
+              "PlanningProblemSet", "PlanningProblem", "Scenario"]
+    n = ctx.pick(160, 24000)
+    for i, rng in ctx.cases("parts", n):
+        name = WHOLES[i % len(WHOLES)]
+        G = Gen(rng)
+        try:
+            whole = G.dynamic_obstacle(6, prediction_kind="trajectory") if name == "DynamicObstacle" and i % 16 < 8 \
+                else make(name, G, rng)
+            ps = parts_of(whole, name)
+            if not ps:
+                continue
+            prefix, part = ps[rng.randrange(len(ps))]
+            before = spatial.extract(whole)
+        except Exception as e:  # noqa
+            ctx.violation("C05/harness/parts-%s-%s" % (name, type(e).__name__), repr(e)[:200], {"class": name})
+            continue
+        a = rng.choice([0.03, -0.05, 1.0, -2.5, math.pi / 2, rng.uniform(-TWO_PI, TWO_PI)])
+        t = np.array([rng.uniform(-30, 30), rng.uniform(-30, 30)])
+        pname = type(part).__name__
+        ctx.evaluation()
+        ctx.fingerprint(["part", name, i, prefix, float(a)])
+        ctx.feature("part.%s-in-%s" % (pname, name))
+        if any(p.startswith(prefix) and "~occupancy" in p for p, _, _ in before):
+            ctx.feature("part-with-derived-occupancies")
+        wit = {"whole": name, "part": prefix, "translation": list(map(float, t)), "angle": float(a)}
+        try:
+            part.translate_rotate(t, a)
+            after = spatial.extract(whole)
+        except Exception as e:  # noqa
+            ctx.violation("C05/part/%s-in-%s/raises-%s" % (pname, name, type(e).__name__), repr(e)[:200], wit)
+            continue
+        inside = [it for it in before if it[0].startswith(prefix)]
+        mv = dict((p_, v) for p_, _, v in spatial.moved(inside, (float(t[0]), float(t[1])), float(a)))
+        exp = [(p_, k, mv[p_]) if p_ in mv else (p_, k, v) for p_, k, v in before]
+        for path, kind, e, g in spatial.compare(exp, after, scale_extra=abs(t[0]) + abs(t[1]))[:1]:
+            where = "moved-part" if path.startswith(prefix) else "outside-part"
+            ctx.violation("C05/part/%s-in-%s/%s/%s-not-as-expected/%s" % (
+                pname, name, where, kind, "derived-occupancy" if "~occupancy" in path else "stored"),
+                "%s: expected %s got %s" % (path, e, g), wit)
 
     # ambient workload (thorough tier): the repository's own tests with the contracts installed
     if not ctx.quick and ctx.shard == 0 and ctx.only is None:
